@@ -39,6 +39,7 @@ func init() {
 	}
 	replayers["c17.hist"] = func(c *Ctx, m map[string]any) map[string]any {
 		steps, _ := m["steps"].([]any)
+		oldBase := uint64(num(m["base"]))
 		var ops []histOp
 		for _, s := range steps {
 			sm := s.(map[string]any)
@@ -53,7 +54,7 @@ func init() {
 			}
 			ops = append(ops, op)
 		}
-		return runHist17(ops)
+		return runHist17(ops, oldBase)
 	}
 }
 
@@ -278,13 +279,22 @@ func stepJ(op histOp) J {
 	return j
 }
 
-// runHist17 replays recorded ops (every "set" as a DidOpen with the recorded text).
-func runHist17(ops []histOp) map[string]any {
+// runHist17 replays recorded ops (every "set" as a DidOpen with the recorded text).  Result ids
+// are process-wide counters: a recorded previousResultId that is a number at or above the
+// recorded base is shifted by the difference to the base probed now, so that "current",
+// "stale" and "not yet issued" ids keep their meaning.
+func runHist17(ops []histOp, oldBase uint64) map[string]any {
 	srv := server.NewServer()
 	base := isolate17(srv)
 	steps, impl := []J{}, []any{}
 	for i := range ops {
 		ops[i].change = nil
+		if ops[i].k == "delta" {
+			if n, err := strconv.ParseUint(ops[i].prev, 10, 64); err == nil && n >= oldBase && n < oldBase+1000000 &&
+				strconv.FormatUint(n, 10) == ops[i].prev {
+				ops[i].prev = strconv.FormatUint(n-oldBase+base, 10)
+			}
+		}
 		impl = append(impl, applyOp(srv, &ops[i]))
 		steps = append(steps, stepJ(ops[i]))
 	}
@@ -711,6 +721,109 @@ func genEdit17(c *Ctx, text string) *protocol.TextDocumentContentChangeEvent {
 	return &protocol.TextDocumentContentChangeEvent{Range: protocol.Range{Start: a, End: b}, Text: ins}
 }
 
+// genFieldPair17: two texts whose encoded arrays differ in exactly ONE of the five integers of
+// one token (the label says which), wrapped in identical lines before and after, so that a
+// delta computation that compares tokens only partially, or trims a common prefix / suffix,
+// is exercised on every field.
+func genFieldPair17(r *rand.Rand) (string, string, string) {
+	w := func() string { return word17(r, feat{}) }
+	var a, b []string
+	var label string
+	switch r.IntN(10) {
+	case 0: // modifiers only: the directive above an indented sub-directive line is commented out
+		com := pick(r, c17Com)
+		a = []string{"commodity " + com, "    format 1,000.00 " + com}
+		b = []string{";ommodity " + com, "    format 1,000.00 " + com}
+		label = "mods.commented-commodity"
+	case 1:
+		acc := account17(r, feat{})
+		sub := pick(r, []string{"    note " + w(), "    alias " + w(), "  " + w() + " " + w()})
+		a = []string{"account " + acc, sub}
+		b = []string{"; ccount " + acc, sub}
+		label = "mods.commented-account"
+	case 2: // modifiers only: same-length directive keyword
+		name := strings.ToUpper(w()[:1]) + "x" + w()
+		other := pick(r, []string{"include", "comment", "capture"})
+		a = []string{other + " " + name}
+		b = []string{"account " + name}
+		label = "mods.keyword"
+	case 3: // modifiers only, several lines below the directive
+		acc := account17(r, feat{})
+		a = []string{"account " + acc, "  " + w(), "  " + w() + " " + w()}
+		b = []string{"include " + acc, "  " + w(), a[2]}
+		b[1] = a[1]
+		label = "mods.keyword-sublines"
+	case 4: // deltaStart only: one more blank before the amount
+		acc := account17(r, feat{})
+		n := number17(r)
+		a = []string{date17(r) + " " + w(), "    " + acc + "  " + n + " USD"}
+		b = []string{a[0], "    " + acc + "   " + n + " USD"}
+		label = "start"
+	case 5: // deltaStart only, first token of a line (indentation)
+		acc := account17(r, feat{})
+		a = []string{date17(r) + " " + w(), "    " + acc}
+		b = []string{a[0], "  " + acc}
+		label = "start.indent"
+	case 6: // length only: the last token of a line grows
+		d := date17(r)
+		p := w()
+		a = []string{d + " " + p}
+		b = []string{d + " " + p + w()}
+		label = "length"
+	case 7: // length only: comment text
+		p := w()
+		a = []string{"; " + p}
+		b = []string{"; " + p + " " + w()}
+		label = "length.comment"
+	case 8: // type only: a one-character number becomes a one-character commodity
+		acc := account17(r, feat{})
+		a = []string{date17(r) + " " + w(), "    " + acc + "  " + strconv.Itoa(1+r.IntN(9))}
+		b = []string{a[0], "    " + acc + "  " + pick(r, []string{"$", "X", "€"})}
+		label = "type"
+	default: // deltaLine only: a blank line in front
+		acc := account17(r, feat{})
+		a = []string{"account " + acc}
+		b = []string{"", "account " + acc}
+		label = "line"
+	}
+	var pre, post []string
+	for i := r.IntN(3); i > 0; i-- {
+		txn17(r, feat{}, &pre)
+	}
+	for i := r.IntN(3); i > 0; i-- {
+		post = append(post, "")
+		txn17(r, feat{tags: true}, &post)
+	}
+	if len(pre) > 0 {
+		pre = append(pre, "")
+	}
+	join := func(mid []string) string {
+		all := append(append(append([]string{}, pre...), mid...), post...)
+		return strings.Join(all, "\n") + "\n"
+	}
+	return join(a), join(b), label
+}
+
+// diffCount17: in how many positions the full arrays of two texts differ ("len" if the lengths differ).
+func diffCount17(a, b string) string {
+	srv := server.NewServer()
+	openDoc(srv, c17Probe, a)
+	da := refFull(srv, c17Probe)
+	openDoc(srv, c17Probe, b)
+	db := refFull(srv, c17Probe)
+	closeDoc(srv, c17Probe)
+	if len(da) != len(db) {
+		return "len"
+	}
+	n := 0
+	for i := range da {
+		if da[i] != db[i] {
+			n++
+		}
+	}
+	return strconv.Itoa(n)
+}
+
 func genHist17(c *Ctx) map[string]any {
 	r := c.R
 	srv := server.NewServer()
@@ -724,19 +837,54 @@ func genHist17(c *Ctx) map[string]any {
 	var allIDs []string
 	counter := base
 	steps, impl := []J{}, []any{}
+	pair := map[string][2]string{} // documents opened from a single-field pair: both texts
+	pairLabel := map[string]string{}
+	pending := "" // a document whose text was just toggled: ask for a delta next
 	for i := 0; i < n; i++ {
 		u := c17URIs[r.IntN(nu)]
+		if pending != "" {
+			u = pending
+		}
 		op := histOp{u: u}
-		switch x := r.IntN(40); {
+		x := r.IntN(40)
+		if pending != "" {
+			pending = ""
+			if lastID[u] != "" && r.IntN(5) != 0 {
+				x = 39 // delta
+			}
+		}
+		_, paired := pair[u]
+		switch {
 		case !open[u] && x < 30, x == 0:
 			op.k = "set"
-			op.text, _ = genText17(c, 3)
-			c.Count("hist.open")
+			delete(pair, u)
+			if r.IntN(3) == 0 {
+				a, b, label := genFieldPair17(r)
+				pair[u], pairLabel[u] = [2]string{a, b}, label
+				op.text = a
+				c.Count(fmt.Sprintf("pair.%s.differing-integers=%s", label, diffCount17(a, b)))
+				c.Count("hist.open.pair")
+			} else {
+				op.text, _ = genText17(c, 3)
+				c.Count("hist.open")
+			}
+		case paired && open[u] && x < 16:
+			// toggle between the two texts of the pair: exactly one integer of one token changes
+			op.k = "set"
+			p := pair[u]
+			if cur[u] == p[0] {
+				op.text = p[1]
+			} else {
+				op.text = p[0]
+			}
+			pending = u
+			c.Count("hist.toggle." + pairLabel[u])
 		case x == 1 || x == 2:
 			op.k = "close"
 			c.Count("hist.close")
 		case x < 12 && open[u]:
 			op.k = "set"
+			delete(pair, u)
 			switch y := r.IntN(10); {
 			case y == 0:
 				op.text, _ = genText17(c, 3)
@@ -763,7 +911,11 @@ func genHist17(c *Ctx) map[string]any {
 			c.Count("hist.full")
 		default:
 			op.k = "delta"
-			switch y := r.IntN(20); {
+			y := r.IntN(20)
+			if x == 39 {
+				y = 0
+			}
+			switch {
 			case y < 9 && lastID[u] != "":
 				op.prev = lastID[u]
 				c.Count("hist.delta.current")
